@@ -46,10 +46,10 @@ Proof. unfold in_cone, radd. cbn. intros. lia. Qed.
 
 (* ------------------------------------------------------------------ weakening *)
 
-Lemma local_weaken : forall A B (H H' : side A) (f : op A B) R R',
-  local H f R -> rad_le R R' -> (forall F r c, H' F r c -> H F r c) -> local H' f R'.
+Lemma local_weaken : forall A B (H H' : side A) (f : op A B) D M D' M',
+  local H f D M -> rad_le D D' -> rad_le M M' -> (forall F r c, H' F r c -> H F r c) -> local H' f D' M'.
 Proof.
-  intros A B H H' f R R' Hl Hle HH F G r c r' c' HF HG Hag HH'.
+  intros A B H H' f D M D' M' Hl HD HM HH F G r c r' c' HF HG Hag HH'.
   apply Hl.
   - eapply cone_in_le; eassumption.
   - eapply cone_in_le; eassumption.
@@ -59,7 +59,7 @@ Qed.
 
 (* ------------------------------------------------------------------ point operations *)
 
-Lemma local_pointwise : forall A B (h : A -> B), local no_side (fun F r c => h (f_at F r c)) rad0.
+Lemma local_pointwise : forall A B (h : A -> B), local no_side (fun F r c => h (f_at F r c)) rad0 rad0.
 Proof.
   intros A B h F G r c r' c' _ _ Hag _.
   specialize (Hag 0 0). rewrite !Z.add_0_r in Hag. rewrite Hag. reflexivity.
@@ -67,20 +67,20 @@ Proof.
 Qed.
 
 (* a step that looks at the data of the pixel itself and at the result of a local step *)
-Lemma local_map2 : forall A B C (H : side A) (f : op A B) (h : A -> B -> C) R,
-  rad_wf R -> local H f R -> local H (fun F r c => h (f_at F r c) (f F r c)) R.
+Lemma local_map2 : forall A B C (H : side A) (f : op A B) (h : A -> B -> C) D M,
+  rad_wf D -> local H f D M -> local H (fun F r c => h (f_at F r c) (f F r c)) D M.
 Proof.
-  intros A B C H f h R Hwf Hl F G r c r' c' HF HG Hag HH.
+  intros A B C H f h D M Hwf Hl F G r c r' c' HF HG Hag HH.
   rewrite (Hl F G r c r' c' HF HG Hag HH).
-  specialize (Hag 0 0 (in_cone_0 R Hwf)). rewrite !Z.add_0_r in Hag. rewrite Hag. reflexivity.
+  specialize (Hag 0 0 (in_cone_0 D Hwf)). rewrite !Z.add_0_r in Hag. rewrite Hag. reflexivity.
 Qed.
 
 (* two local steps side by side *)
-Lemma local_pair : forall A B C (H1 H2 : side A) (f : op A B) (g : op A C) R1 R2,
-  local H1 f R1 -> local H2 g R2 ->
-  local (fun F r c => H1 F r c /\ H2 F r c) (fun F r c => (f F r c, g F r c)) (rmax R1 R2).
+Lemma local_pair : forall A B C (H1 H2 : side A) (f : op A B) (g : op A C) D1 M1 D2 M2,
+  local H1 f D1 M1 -> local H2 g D2 M2 ->
+  local (fun F r c => H1 F r c /\ H2 F r c) (fun F r c => (f F r c, g F r c)) (rmax D1 D2) (rmax M1 M2).
 Proof.
-  intros A B C H1 H2 f g R1 R2 Hf Hg F G r c r' c' HF HG Hag [Ha Hb].
+  intros A B C H1 H2 f g D1 M1 D2 M2 Hf Hg F G r c r' c' HF HG Hag [Ha Hb].
   f_equal.
   - apply Hf; try assumption.
     + eapply cone_in_le; [apply rad_le_max_l | eassumption].
@@ -92,20 +92,22 @@ Proof.
     + eapply agree_on_le; [apply rad_le_max_r | eassumption].
 Qed.
 
-(* ------------------------------------------------------------------ composition: radii add *)
+(* ------------------------------------------------------------------ composition: data cones add *)
 
-Theorem local_compose : forall A B C (Hf : side A) (Hg : side B) (f : op A B) (g : op B C) Rf Rg,
-  rad_wf Rf -> rad_wf Rg -> local Hf f Rf -> local Hg g Rg ->
-  local (side_comp Hf f Hg Rg) (comp g f) (radd Rg Rf).
+Theorem local_compose : forall A B C (Hf : side A) (Hg : side B) (f : op A B) (g : op B C) Df Mf Dg Mg,
+  rad_wf Df -> rad_wf Mf -> rad_wf Dg -> rad_wf Mg -> local Hf f Df Mf -> local Hg g Dg Mg ->
+  local (side_comp Hf f Hg Dg) (comp g f) (radd Dg Df) (rmax Mg (radd Dg Mf)).
 Proof.
-  intros A B C Hf Hg f g Rf Rg Wf Wg Lf Lg F G r c r' c' HF HG Hag [Hs1 Hs2].
+  intros A B C Hf Hg f g Df Mf Dg Mg WDf WMf WDg WMg Lf Lg F G r c r' c' HF HG Hag [Hs1 Hs2].
   unfold comp. apply Lg.
-  - exact (cone_in_add_outer A F Rg Rf r c Wf Wg HF).
-  - exact (cone_in_add_outer A G Rg Rf r' c' Wf Wg HG).
+  - exact (cone_in_le _ F Mg _ r c (rad_le_max_l _ _) HF).
+  - exact (cone_in_le _ G Mg _ r' c' (rad_le_max_l _ _) HG).
   - intros a b Hab. unfold lift. cbn [f_at].
     apply Lf.
-    + eapply cone_in_add; eassumption.
-    + eapply cone_in_add; eassumption.
+    + apply (cone_in_add _ F Dg Mf r c a b WMf WDg); [|exact Hab].
+      eapply cone_in_le; [apply rad_le_max_r | exact HF].
+    + apply (cone_in_add _ G Dg Mf r' c' a b WMf WDg); [|exact Hab].
+      eapply cone_in_le; [apply rad_le_max_r | exact HG].
     + intros a' b' Hab'.
       replace (r + a + a') with (r + (a + a')) by lia. replace (c + b + b') with (c + (b + b')) by lia.
       replace (r' + a + a') with (r' + (a + a')) by lia. replace (c' + b + b') with (c' + (b + b')) by lia.
@@ -116,43 +118,43 @@ Qed.
 
 (* ------------------------------------------------------------------ pipelines *)
 
-Lemma chain_wf : forall A (H : side A) steps R, chain H steps R -> rad_wf R.
+Lemma chain_wf : forall A (H : side A) steps D M, chain H steps D M -> rad_wf D /\ rad_wf M.
 Proof.
   induction 1.
   - unfold rad_wf, rad0. cbn. lia.
-  - apply rad_wf_add; assumption.
+  - destruct IHchain. split; [apply rad_wf_add; assumption | apply rad_wf_max; assumption].
 Qed.
 
-Theorem pipeline_local : forall A (H : side A) (steps : list (op A A)) R,
-  chain H steps R -> local H (run_pipe steps) R.
+Theorem pipeline_local : forall A (H : side A) (steps : list (op A A)) D M,
+  chain H steps D M -> local H (run_pipe steps) D M.
 Proof.
   induction 1.
   - cbn [run_pipe]. apply (local_pointwise A A (fun x => x)).
-  - cbn [run_pipe]. apply local_compose; try assumption. eapply chain_wf; eassumption.
+  - cbn [run_pipe]. destruct (chain_wf _ _ _ _ _ H3). apply local_compose; assumption.
 Qed.
 
 (* ------------------------------------------------------------------ crops *)
 
 (* processing a crop that contains the cone of a pixel gives what processing the whole raster gives
    at the corresponding pixel, wherever the crop starts and whatever its size *)
-Theorem crop_invariance : forall A B (H : side A) (f : op A B) R (F : frame A) r0 c0 h w r c,
-  local H f R -> crop_ok F r0 c0 h w -> cone_in (crop F r0 c0 h w) R r c -> H (crop F r0 c0 h w) r c ->
+Theorem crop_invariance : forall A B (H : side A) (f : op A B) D M (F : frame A) r0 c0 h w r c,
+  local H f D M -> crop_ok F r0 c0 h w -> cone_in (crop F r0 c0 h w) M r c -> H (crop F r0 c0 h w) r c ->
   f (crop F r0 c0 h w) r c = f F (r + r0) (c + c0).
 Proof.
-  intros A B H f R F r0 c0 h w r c Hl Hok Hc HH.
+  intros A B H f D M F r0 c0 h w r c Hl Hok Hc HH.
   apply Hl; try assumption.
   - unfold cone_in, crop, crop_ok in *. cbn [f_nr f_nc] in *. lia.
   - intros a b _. unfold crop. cbn [f_at]. f_equal; lia.
 Qed.
 
 (* two crops of the same raster that both contain the cone of the same pixel *)
-Corollary crop_crop_invariance : forall A B (H : side A) (f : op A B) R (F : frame A) r0 c0 h w r0' c0' h' w' r c,
-  local H f R -> crop_ok F r0 c0 h w -> crop_ok F r0' c0' h' w' ->
-  cone_in (crop F r0 c0 h w) R (r - r0) (c - c0) -> cone_in (crop F r0' c0' h' w') R (r - r0') (c - c0') ->
+Corollary crop_crop_invariance : forall A B (H : side A) (f : op A B) D M (F : frame A) r0 c0 h w r0' c0' h' w' r c,
+  local H f D M -> crop_ok F r0 c0 h w -> crop_ok F r0' c0' h' w' ->
+  cone_in (crop F r0 c0 h w) M (r - r0) (c - c0) -> cone_in (crop F r0' c0' h' w') M (r - r0') (c - c0') ->
   H (crop F r0 c0 h w) (r - r0) (c - c0) -> H (crop F r0' c0' h' w') (r - r0') (c - c0') ->
   f (crop F r0 c0 h w) (r - r0) (c - c0) = f (crop F r0' c0' h' w') (r - r0') (c - c0').
 Proof.
-  intros. rewrite (crop_invariance A B H f R F r0 c0 h w) by assumption.
-  rewrite (crop_invariance A B H f R F r0' c0' h' w') by assumption.
+  intros. rewrite (crop_invariance A B H f D M F r0 c0 h w) by assumption.
+  rewrite (crop_invariance A B H f D M F r0' c0' h' w') by assumption.
   f_equal; lia.
 Qed.
